@@ -66,6 +66,10 @@ pub enum ModelEvaluatorError {
   ReadLockFailed(String),
   #[error("write lock failed with reason '{0}'")]
   WriteLockFailed(String),
+  #[error("decision table has no output clauses")]
+  DecisionTableWithoutOutputs,
+  #[error("rule {0} of the decision table has {1} input entries and {2} output entries, expected {3} and {4}")]
+  DecisionTableRuleArity(usize, usize, usize, usize, usize),
 }
 
 impl From<ModelEvaluatorError> for DmntkError {
@@ -112,6 +116,14 @@ pub fn err_unsupported_feel_type(feel_type: FeelType) -> DmntkError {
 
 pub fn err_empty_feel_type() -> DmntkError {
   ModelEvaluatorError::EmptyFeelType.into()
+}
+
+pub fn err_decision_table_without_outputs() -> DmntkError {
+  ModelEvaluatorError::DecisionTableWithoutOutputs.into()
+}
+
+pub fn err_decision_table_rule_arity(rule: usize, inputs: usize, outputs: usize, expected_inputs: usize, expected_outputs: usize) -> DmntkError {
+  ModelEvaluatorError::DecisionTableRuleArity(rule, inputs, outputs, expected_inputs, expected_outputs).into()
 }
 
 pub fn err_empty_reference() -> DmntkError {
